@@ -113,4 +113,8 @@ def check(ctx):
         ok = len(incs) == 1 and bool(pubs) and all(body.dominates(incs[0][0], pb) for (pb, _) in pubs) and not util.in_loop(body, incs[0][0])
         ctx.ob("R05.7", f"{k}|preload-before-fanout", ok, body.loc(incs[0][0]) if incs else f"{body.f['file']}:{body.f['line']}",
                "the reference count must be raised for all copies before the first copy is published (a listener that consumes and drops inside the send window would otherwise free the payload while other handles exist)")
+    # ... and equals the number of copies handed out: one reference too few destroys the payload while a listener still holds it, one too many keeps its
+    # storage occupied for good (pairing rule shared with C17 R17.2)
+    import importlib as _il
+    _il.import_module("props.C17").check_refcount_pairing(util.PrefixedCtx(ctx, "R05.7"))
     ctx.floor("R05.5", 4); ctx.floor("R05.6", 2); ctx.floor("R05.7", 2); ctx.floor("R05.2", 5); ctx.floor("R05.4", 4)
